@@ -264,8 +264,14 @@ func (incr *incremental[Obj]) commitStatus() (numErrors int) {
 			// The limitation of this approach is that we cannot support the reconciler
 			// modifying the object during reconciliation as the following will forget
 			// the changes.
+			//
+			// The same applies when the status is still the Error this reconciler wrote
+			// for its previous attempt: only this reconciler sets it and a change by the
+			// user would have replaced it with Pending. Without this the result of a retry
+			// would be dropped, the retry forgotten and the object left in Error for good.
 			currentStatus := incr.config.GetObjectStatus(current)
-			if currentStatus.Kind == StatusKindPending && currentStatus.ID == result.id {
+			if (currentStatus.Kind == StatusKindPending && currentStatus.ID == result.id) ||
+				currentStatus.Kind == StatusKindError {
 				current = incr.config.CloneObject(current)
 				current = incr.config.SetObjectStatus(current, status)
 				_, _, err = incr.table.Insert(wtxn, current)
